@@ -440,6 +440,7 @@ package proxy
 //@   ensures [answered] called(answer) && result == res(answer)
 //@ func (*modernForgeLoginRelay).relayToClient
 //@   props C13
+//@   at-call SendLoginPluginMessage as send2: assert [payload-as-received-or-a-one-byte-placeholder-for-an-empty-one] len(arg2) != 0 && (len(msg.Data) != 0 ==> ref(arg2) == ref(msg.Data) && len(arg2) == len(msg.Data)) && (len(msg.Data) == 0 ==> len(arg2) == 1 && arg2[0] == 0)
 //@   at-call SendLoginPluginMessage as send: assert arg0 == r.clientLogin && dyntype(arg3, "proxy.forgeRelayConsumer") && cast(arg3, *forgeRelayConsumer).backendMsgID == msg.ID && cast(arg3, *forgeRelayConsumer).backendConn == backendConn && cast(arg3, *forgeRelayConsumer).relay == r
 
 // ---- C24: early plugin messages are queued (bounded), delivered once, in order ---------------------------------------
